@@ -165,10 +165,13 @@ const STRINGS: &[&str] = &[
     "~", "null", "Null", "no", "Yes", "Y", "n", "on", "OFF", "-", "-x", "a-b", "/p/q.r", "_x", ".x", "0x1f", "1.5", "`", "```", "'", "it's", "\u{0}", "\u{1}", "\u{1b}", "\u{1f}", "\u{a0}", "\u{feff}", "\u{1F600}", "\u{fffd}", "%", "@", "&a", "*a", "!t", "|", ">", "?", "[", "]", "path", "timeout", "a\\nb", "\\u0041",
     // characters the YAML reader rejects / folds as line breaks (escaped as \uXXXX since fix d9da776)
     "\u{7f}", "\u{80}", "\u{9f}", "\u{fffe}", "\u{ffff}", "\u{85}", "x\u{85}y", "\u{2028}", " \u{2028} ", "\u{2029}",
+    // format characters (Cf) in and above the BMP: zero width joiner, soft hyphen, bidi override, emoji tag sequence
+    // (flag of England), musical beam control, a supplementary-plane shorthand control
+    "a\u{200d}b", "co\u{ad}op", "\u{202e}x", "\u{1F3F4}\u{E0067}\u{E0062}\u{E0065}\u{E006E}\u{E0067}\u{E007F}", "\u{1D173}7", "\u{110BD}", "\u{1BCA0}x",
 ];
 
 const CHARS: &[char] = &['a', 'Z', '0', '9', ' ', '"', '\\', ':', '{', '}', ',', '#', 'é', '\t', '\n', '-', '_', '.', '/', '~', '\'', '`', '\u{1}', '\u{1F600}', 'n', 'u', 'x'];
-const RARE_CHARS: &[char] = &['\u{7f}', '\u{85}', '\u{2028}', '\u{9b}', '\u{ffff}', '\r', '\u{0}'];
+const RARE_CHARS: &[char] = &['\u{7f}', '\u{85}', '\u{2028}', '\u{9b}', '\u{ffff}', '\r', '\u{0}', '\u{200d}', '\u{E0067}', '\u{1D173}', '\u{10FFFF}'];
 
 fn dur_boundaries() -> Vec<(u64, u32)> {
     let mut v = vec![(0u64, 0u32), (0, 1), (0, 999), (0, 1000), (0, 1001), (0, 999_999), (0, 1_000_000), (0, 1_000_001), (0, 999_999_999), (0, 500_000_000)];
